@@ -193,17 +193,64 @@ func nestedSchemas(tag string) []genSchema {
 		EnumType:   []*descriptorpb.EnumDescriptorProto{enum("E", "E")},
 		NestedType: []*descriptorpb.DescriptorProto{{Name: proto.String("P"), Field: []*descriptorpb.FieldDescriptorProto{fld("v", 1, i32, opt, "")}}, entry("MEntry", "X", str, i32, "")},
 		Extension:  []*descriptorpb.FieldDescriptorProto{ext("xa", 100, i32)},
-		Field: []*descriptorpb.FieldDescriptorProto{fld("e", 1, enT, opt, q+".A.X.E"), fld("p", 2, msgT, opt, q+".A.X.P"), fld("m", 3, msgT, rep, q+".A.X.MEntry")}}
+		Field:      []*descriptorpb.FieldDescriptorProto{fld("e", 1, enT, opt, q+".A.X.E"), fld("p", 2, msgT, opt, q+".A.X.P"), fld("m", 3, msgT, rep, q+".A.X.MEntry")}}
 	a := &descriptorpb.DescriptorProto{Name: proto.String("A"), NestedType: []*descriptorpb.DescriptorProto{x, {Name: proto.String("Y"), EnumType: []*descriptorpb.EnumDescriptorProto{enum("G", "G")}, Field: []*descriptorpb.FieldDescriptorProto{fld("g", 1, enT, opt, q+".A.Y.G")}}},
 		Field: []*descriptorpb.FieldDescriptorProto{fld("x", 1, msgT, opt, q+".A.X"), fld("y", 2, msgT, opt, q+".A.Y")}}
 	b := &descriptorpb.DescriptorProto{Name: proto.String("B"),
 		EnumType:   []*descriptorpb.EnumDescriptorProto{enum("F", "F")},
 		NestedType: []*descriptorpb.DescriptorProto{{Name: proto.String("Z"), Field: []*descriptorpb.FieldDescriptorProto{fld("s", 1, str, opt, "")}}, entry("MzEntry", "B", i32, msgT, q+".B.Z")},
 		Extension:  []*descriptorpb.FieldDescriptorProto{ext("xb", 101, str)},
-		Field: []*descriptorpb.FieldDescriptorProto{fld("f", 1, enT, opt, q+".B.F"), fld("z", 2, msgT, opt, q+".B.Z"), fld("mz", 3, msgT, rep, q+".B.MzEntry"), fld("ax", 4, msgT, opt, q+".A.X"), fld("ae", 5, enT, rep, q+".A.X.E")}}
+		Field:      []*descriptorpb.FieldDescriptorProto{fld("f", 1, enT, opt, q+".B.F"), fld("z", 2, msgT, opt, q+".B.Z"), fld("mz", 3, msgT, rep, q+".B.MzEntry"), fld("ax", 4, msgT, opt, q+".A.X"), fld("ae", 5, enT, rep, q+".A.X.E")}}
 	e := &descriptorpb.DescriptorProto{Name: proto.String("Ext"), ExtensionRange: []*descriptorpb.DescriptorProto_ExtensionRange{{Start: proto.Int32(100), End: proto.Int32(200)}}}
 	fdp := &descriptorpb.FileDescriptorProto{Name: proto.String("verif/c41/" + id + ".proto"), Package: proto.String(pkg), MessageType: []*descriptorpb.DescriptorProto{a, b, e},
 		EnumType: []*descriptorpb.EnumDescriptorProto{enum("Top", "TOP")}, Extension: []*descriptorpb.FieldDescriptorProto{ext("xtop", 102, i32)}}
 	setGoPackage(fdp, id)
 	return []genSchema{{"three-level nesting with later nested declarations", fdp}}
+}
+
+// defaultSchemas: fields whose unset value is not the Go zero value - enums
+// whose first declared value is not numbered 0 (with and without a later 0),
+// explicit defaults of every scalar kind - so that generated getters must
+// consult presence rather than read the struct field.
+func defaultSchemas(tag string) []genSchema {
+	id := "dflt" + tag
+	pkg := "verif.c41." + id
+	q := "." + pkg
+	opt := descriptorpb.FieldDescriptorProto_LABEL_OPTIONAL
+	enum := func(name string, vals ...any) *descriptorpb.EnumDescriptorProto {
+		e := &descriptorpb.EnumDescriptorProto{Name: proto.String(name)}
+		for i := 0; i < len(vals); i += 2 {
+			e.Value = append(e.Value, &descriptorpb.EnumValueDescriptorProto{Name: proto.String(vals[i].(string)), Number: proto.Int32(int32(vals[i+1].(int)))})
+		}
+		return e
+	}
+	var fields []*descriptorpb.FieldDescriptorProto
+	add := func(name string, t descriptorpb.FieldDescriptorProto_Type, tn, def string) {
+		f := &descriptorpb.FieldDescriptorProto{Name: proto.String(name), Number: proto.Int32(int32(len(fields) + 1)), Type: t.Enum(), Label: opt.Enum(), JsonName: proto.String(strs.JSONCamelCase(name))}
+		if tn != "" {
+			f.TypeName = proto.String(q + "." + tn)
+		}
+		if def != "-" {
+			f.DefaultValue = proto.String(def)
+		}
+		fields = append(fields, f)
+	}
+	en := descriptorpb.FieldDescriptorProto_TYPE_ENUM
+	add("r", en, "Reordered", "-")
+	add("n", en, "NoZero", "-")
+	add("p", en, "Plain", "P_ONE")
+	add("rd", en, "Reordered", "R_ZERO")
+	add("i", descriptorpb.FieldDescriptorProto_TYPE_INT32, "", "-7")
+	add("u", descriptorpb.FieldDescriptorProto_TYPE_UINT64, "", "18446744073709551615")
+	add("s", descriptorpb.FieldDescriptorProto_TYPE_STRING, "", "x\"y")
+	add("b", descriptorpb.FieldDescriptorProto_TYPE_BYTES, "", "\\001\\377")
+	add("f", descriptorpb.FieldDescriptorProto_TYPE_FLOAT, "", "inf")
+	add("d", descriptorpb.FieldDescriptorProto_TYPE_DOUBLE, "", "-1.5")
+	add("t", descriptorpb.FieldDescriptorProto_TYPE_BOOL, "", "true")
+	add("s0", descriptorpb.FieldDescriptorProto_TYPE_STRING, "", "")
+	m := &descriptorpb.DescriptorProto{Name: proto.String("D"), Field: fields}
+	fdp := &descriptorpb.FileDescriptorProto{Name: proto.String("verif/c41/" + id + ".proto"), Package: proto.String(pkg), MessageType: []*descriptorpb.DescriptorProto{m},
+		EnumType: []*descriptorpb.EnumDescriptorProto{enum("Reordered", "R_ONE", 1, "R_ZERO", 0), enum("NoZero", "N_FIVE", 5, "N_SEVEN", 7), enum("Plain", "P_ZERO", 0, "P_ONE", 1)}}
+	setGoPackage(fdp, id)
+	return []genSchema{{"defaults that are not the Go zero value", fdp}}
 }
